@@ -129,7 +129,7 @@ def plan(tier, seed):
         return G.cfg(expr=rnd.choice(exprs), stop=rnd.random() < 0.3, dry=rnd.random() < 0.15,
                      show_skipped=rnd.random() < 0.6, cont=rnd.random() < 0.15,
                      capture=(rnd.random() < 0.75, rnd.random() < 0.75, rnd.random() < 0.75), retry=rnd.random() < 0.2,
-                     observe=rnd.random() < 0.3, async_steps=rnd.random() < 0.25)
+                     observe=rnd.random() < 0.3, async_steps=rnd.random() < 0.25, chatty=rnd.random() < 0.06)
 
     def with_skips(p, prob):
         """some programs: a before_feature / before_rule / before_scenario hook excludes its element at run time"""
@@ -213,7 +213,7 @@ def shared(chk, part="core"):
     """Run (or load) the shared stage for this tree / tier / seed.  Returns a dict:
        n_runs, tlc: [{module,cfg,distinct,generated,wall,coverage}], verdicts: {clause: [ {key, ...} ]},
        divergences, samples, design_violations"""
-    key = tree_key({"tier": chk.tier, "seed": chk.seed, "part": part, "v": 9})
+    key = tree_key({"tier": chk.tier, "seed": chk.seed, "part": part, "v": 10})
     os.makedirs(CACHE, exist_ok=True)
     path = os.path.join(CACHE, "%s-%s-%s.json.gz" % (part, chk.tier, key))
     lock = open(os.path.join(CACHE, "%s-%s.lock" % (part, chk.tier)), "w")
@@ -306,7 +306,9 @@ def _compute(chk, part):
         for ci, c in enumerate(cfgs):
             for fi, f in enumerate(faults):
                 jobs.append({"key": [tid, ci + 1, fi + 1], "prog": p, "flat": flat, "cfg": c, "fault": f,
-                             "fault_kind": "assert" if (tid + ci + fi) % 3 == 0 else "exc"})
+                             "fault_kind": "assert" if (tid + ci + fi) % 3 == 0 else "exc",
+                             # every 7th job: the same model objects were run once before and reset (history)
+                             "prerun": (tid + 2 * ci + 3 * fi) % 7 == 0})
     out = drive_all(jobs)
     for row in out:
         if "driver_error" in row:
